@@ -129,7 +129,8 @@ theorem VersInv.afterRestart (hI : VersInv IL) {s : Sys} (h : IL (versList s)) :
     exact hI.dup j h1
 
 theorem VersInv.micro (hI : VersInv IL) {j0 jo : JobObj} {sp s s' : Sys}
-    (hb : Base j0 s) (h : IL (versList s)) (hc : s.jobCache = some jo) (hm : Micro jo sp s s') :
+    (hb : Base j0 s) (h : IL (versList s)) (hc : s.jobCache = some jo)
+    (hid : CachedIsCur jo (sync sp jo).1) (hm : Micro jo sp s s') :
     IL (versList s') := by
   have hseen := mem_seenVers_cache hc
   cases hm with
@@ -162,15 +163,25 @@ theorem VersInv.micro (hI : VersInv IL) {j0 jo : JobObj} {sp s s' : Sys}
     · have : jo = c := hb.rvId c hc' jo hseen hrv.symm
       subst this
       exact hI.jobWrite h hc' h' (.status jo _ _ (sync_spec sp jo sp (CreatePhase.refl _)).2)
+  | updStatusOn s1 hs1 hs hok =>
+    rcases apiUpdateJobStatus_spec s { jo with rv := updatedRv s jo } { jo with job := (sync sp jo).2.1 } with
+      h' | ⟨c, hc', hrv, h'⟩
+    · exact hI.frame h h'
+    · have hcs := (apiUpdateJob_ok_cur (hs1 ▸ hid) hok c (hs ▸ hc')).1
+      rw [hcs] at hc' h'
+      exact hI.jobWrite h hc' h'
+        (.status _ { jo with job := (sync sp jo).2.1 } _
+          (JobLe.of_specWrite (sync_spec sp jo sp (CreatePhase.refl _)).2 _))
 
 theorem VersInv.micros (hI : VersInv IL) {j0 jo : JobObj} {sp s s' : Sys}
-    (hb : Base j0 s) (h : IL (versList s)) (hc : s.jobCache = some jo) (hm : Micros jo sp s s') :
+    (hb : Base j0 s) (h : IL (versList s)) (hc : s.jobCache = some jo)
+    (hid : CachedIsCur jo (sync sp jo).1) (hm : Micros jo sp s s') :
     IL (versList s') := by
   induction hm with
   | refl => exact h
   | tail hms hm ih =>
     have := hb.micros hc hms
-    exact hI.micro this.1 ih this.2 hm
+    exact hI.micro this.1 ih this.2 hid hm
 
 /-- the property of the version list survives every step -/
 theorem versInv_step (hI : VersInv IL) {j0 : JobObj} {s : Sys} (hb : Base j0 s)
@@ -183,7 +194,8 @@ theorem versInv_step (hI : VersInv IL) {j0 : JobObj} {s : Sys} (hb : Base j0 s)
     | none => exact hI.frame h (work_frame s hc)
     | some jo =>
       obtain ⟨sp, hf, hm⟩ := work_micros s jo hc
-      exact hI.micros (hb.frame hf) (hI.frame h hf) (hf.jobCache.trans hc) hm
+      exact hI.micros (hb.frame hf) (hI.frame h hf) (hf.jobCache.trans hc)
+        (cachedIsCur_sync (hb.frame hf) (hf.jobCache.trans hc)) hm
   | deliverJob => exact hI.sub _ _ (versList_deliverJob s) h
   | deliverPod =>
     show IL (versList (deliverPod s))
